@@ -288,6 +288,8 @@ class NP(object):
 
     # -- conversion ---------------------------------------------------------
     def asarray(self, x, dtype=None, **k):
+        if isinstance(x, SymIntArray) and dtype is None:
+            return x     # (an integer array stays an integer array)
         if _has_sym(x) and not _is_int_dtype(dtype):
             dtype = None
         a = _np.asarray(x, dtype=dtype, **k)
@@ -295,6 +297,8 @@ class NP(object):
             isinstance(x, _np.ndarray)) else a
 
     def array(self, x, dtype=None, copy=True, **k):
+        if isinstance(x, SymIntArray) and dtype is None:
+            return _np.array(x, dtype=object, copy=copy, subok=True)
         if _has_sym(x) and not _is_int_dtype(dtype):
             dtype = None
         a = _np.array(x, dtype=dtype, copy=copy, **k)
@@ -306,6 +310,8 @@ class NP(object):
         return a
 
     def copy(self, a, **k):
+        if isinstance(a, SymIntArray):
+            k.setdefault('subok', True)
         return _np.copy(a, **k)
 
     def isclose(self, a, b, rtol=1e-05, atol=1e-08, equal_nan=False):
